@@ -176,6 +176,9 @@ func (st *hnState) checkFunc(fn *ssa.Function) {
 			if !ok {
 				continue
 			}
+			if !isReturn(in) && allConstResults(ret) {
+				continue // the synthetic return of the recover block of a function with unnamed results: zero values
+			}
 			for i, r := range ret.Results {
 				if !isHostType(sig.Results().At(i).Type()) {
 					continue
@@ -1022,4 +1025,14 @@ func scanIndexCanonical(fn *ssa.Function, ifi *ssa.If, phi *ssa.Phi, bound ssa.V
 		}
 	}
 	return true, fmt.Sprintf("%d indexed access(es) of canonical form", len(gets))
+}
+
+// allConstResults: every operand of the return is a constant (the zero values go/ssa returns from a recover block).
+func allConstResults(ret *ssa.Return) bool {
+	for _, r := range ret.Results {
+		if _, ok := r.(*ssa.Const); !ok {
+			return false
+		}
+	}
+	return true
 }
